@@ -1333,6 +1333,35 @@ Proof.
   now rewrite (plain_sfx_only s Hs), (plain_sfx_only s' Hs').
 Qed.
 
+(* for the plain instance legality does not depend on the state *)
+Definition plain_op_ok (o : op plain_inst) : Prop :=
+  match o with OPut _ v => f32_words v | OModify _ _ => False | _ => True end.
+Definition plain_txn_ok (t : txn plain_inst) : Prop :=
+  Forall plain_op_ok (t_ops t) /\ (t_kind t = TRead -> forallb (read_only plain_inst) (t_ops t) = true).
+
+Lemma plain_wf_op c g o : plain_op_ok o -> wf_op plain_inst plain_spec c g o.
+Proof.
+  destruct o; cbn [plain_op_ok wf_op]; auto.
+  - intros [].
+  - intros _. exact plain_enumerable.
+  - intros _. split; [exact plain_enumerable|apply plain_enum_unique].
+Qed.
+
+Lemma plain_wf_run B ops : forall c b, Forall plain_op_ok ops -> wf_run plain_inst B plain_spec ops c b.
+Proof.
+  induction ops as [|o r IH]; intros c b H; cbn [wf_run]; [exact I|].
+  inversion H; subst. split; [now apply plain_wf_op|].
+  destruct (step plain_inst B o c b) as [[c1 b1] x]. now apply IH.
+Qed.
+
+Lemma plain_wf_txs B ts : forall c b, Forall plain_txn_ok ts -> wf_txs plain_inst B plain_spec ts c b.
+Proof.
+  induction ts as [|t r IH]; intros c b H; cbn [wf_txs]; [exact I|].
+  inversion H as [|? ? [H1 H2] Hr]; subst. split.
+  - split; [now apply plain_wf_run|exact H2].
+  - destruct (run_txn plain_inst B t c b) as [[c1 b1] x]. now apply IH.
+Qed.
+
 (* ---- binary quantised point ---- *)
 Lemma bq_norm_idem v : bq_norm (bq_norm v) = bq_norm v.
 Proof. destruct v as [vec [|c code] d]; reflexivity. Qed.
